@@ -246,6 +246,54 @@ func runC14N1(st *c14state) {
 			}
 		}
 	})
+	// generic spelling: the scheme IS the option's value — `v + "://" + addr` with v cut from the word after "proto="
+	// (strings.CutPrefix / TrimPrefix / o[len("proto="):]) — chosen under a membership test of v against the schemes
+	eachInstrOf(scan, func(f *ssa.Function, i ssa.Instruction) {
+		b, ok := i.(*ssa.BinOp)
+		if !ok || b.Op != token.ADD {
+			return
+		}
+		sep, isK := constString(b.Y)
+		if !isK || !strings.HasPrefix(sep, "://") {
+			return
+		}
+		fromProtoOption := derives(b.X, func(v ssa.Value) bool {
+			call, ok := v.(*ssa.Call)
+			if ok {
+				switch calleeName(&call.Call) {
+				case "strings.CutPrefix", "strings.TrimPrefix":
+					if k, isK := constString(call.Call.Args[1]); isK && k == "proto=" {
+						return true
+					}
+				}
+			}
+			if sl, ok := v.(*ssa.Slice); ok && sl.Low != nil {
+				if k, isK := constInt(sl.Low); isK && k == int64(len("proto=")) {
+					return true
+				}
+			}
+			return false
+		})
+		if !fromProtoOption {
+			return
+		}
+		// the membership test: v compared with each scheme constant somewhere in the same function
+		eachInstr(f, func(j ssa.Instruction) {
+			cmp, ok := j.(*ssa.BinOp)
+			if !ok || cmp.Op != token.EQL {
+				return
+			}
+			for _, pair := range [][2]ssa.Value{{cmp.X, cmp.Y}, {cmp.Y, cmp.X}} {
+				if k, isK := constString(pair[1]); isK && (pair[0] == b.X || derives(b.X, func(v ssa.Value) bool { return v == pair[0] }) || derives(pair[0], func(v ssa.Value) bool { return v == b.X })) {
+					for _, p := range want {
+						if k == p || k == "proto="+p {
+							seen[p] = true
+						}
+					}
+				}
+			}
+		})
+	})
 	okProto := true
 	var missing []string
 	for _, p := range want {
